@@ -95,3 +95,7 @@ Definition run_wg_run (a : args) : args :=
 (* wg_race <trials>: real two-thread races on the crate (harness/src/sync.rs); the model's answer is the property itself: no wake-up is
    ever lost (Async/SyncProofs.v, C14_no_lost_wakeup) *)
 Definition run_wg_race (a : args) : args := [[0]].
+
+(* tok_many <n>: harness-side assertions on one runner with n live tokens at shutdown (harness/src/sync.rs); the model's answer is the
+   property itself (C14_nothing_new, C14_idle_connection_stops, C14_ready_iff_done) *)
+Definition run_tok_many (a : args) : args := [[1]].
